@@ -199,7 +199,7 @@ def main():
             na.append({'property_id': pid, 'reason': 'check not built yet in this revision (planned, see DESIGN.md §4); not claimed'})
     m = {
         'version': 1,
-        'setup_cmd': 'cd lean && lake build Asn1Model Asn1Proofs driver',
+        'setup_cmd': 'cd lean && lake build Asn1Model Asn1Proofs driver trdriver',
         'hooks': {
             'guard': 'ASN1TOOLS_VERIF',
             'enable': 'no source hooks are needed: instrumentation is installed from the harness at run time (DESIGN.md §2.5)',
